@@ -94,6 +94,9 @@ def hs(kind):
 results = {}
 servers = {}
 clients = {}
+if spec.get("slow_start"):
+    # the reactor thread is slow to come up (a loaded machine): calls made meanwhile wait for it, they are not refused
+    reactor.addSystemEventTrigger("before", "startup", time.sleep, float(spec["slow_start"]))
 for c in spec["clients"]:
     cid = c["id"]
     if c["server"] == "refuse":
@@ -119,11 +122,13 @@ for c in spec["clients"]:
     clients[cid] = api.connect("127.0.0.1::%d" % port, password=None, factory_class=make_factory(cid), timeout=spec.get("timeout", 8))
 
 
-def drive(c):
+def drive(c, key="calls"):
     cid = c["id"]
     out = []
     cl = clients[cid]
-    for call in c["calls"]:
+    if key == "calls2":
+        time.sleep(float(c.get("delay2", 0)))
+    for call in c[key]:
         if call.get("sleep"):
             time.sleep(call["sleep"])
         t0 = time.time()
@@ -146,10 +151,11 @@ def drive(c):
             out.append(["blocked", None, round(time.time() - t0, 3)])
         except Exception as e:  # noqa: BLE001
             out.append(["raise", type(e).__name__, None, round(time.time() - t0, 3)])
-    results[cid] = out
+    results[cid if key == "calls" else "%s/2" % cid] = out
 
 
 threads = [threading.Thread(target=drive, args=(c,)) for c in spec["clients"]]
+threads += [threading.Thread(target=drive, args=(c, "calls2")) for c in spec["clients"] if c.get("calls2")]
 for t in threads:
     t.start()
 for t in threads:
